@@ -122,3 +122,26 @@ func Unique(t *rapid.T, label string, used map[string]bool, key func(string) str
 		}
 	}
 }
+
+// Uniform draws an index in [0,n) without rapid's bias towards small values (fair
+// coin flips, folded with a modulus; still shrinks towards 0).
+func Uniform(t *rapid.T, label string, n int) int {
+	if n <= 1 {
+		return 0
+	}
+	bits := 2
+	for (1 << bits) < 8*n {
+		bits++
+	}
+	v := 0
+	for i := 0; i < bits; i++ {
+		v <<= 1
+		if rapid.Bool().Draw(t, fmt.Sprintf("%s_b%d", label, i)) {
+			v |= 1
+		}
+	}
+	return v % n
+}
+
+// Pick is SampledFrom with a uniform distribution.
+func Pick[T any](t *rapid.T, label string, xs []T) T { return xs[Uniform(t, label, len(xs))] }
